@@ -238,7 +238,11 @@ def equals(interp, a, b):
             return simp(z3.Not(other.present))
         return False
     if isinstance(a, OptionalVal) or isinstance(b, OptionalVal):
-        raise OutOfSubset("equality on optional value")
+        o, other = (a, b) if isinstance(a, OptionalVal) else (b, a)
+        if isinstance(other, OptionalVal):
+            raise OutOfSubset("equality of two optional values")
+        # None is not equal to any number
+        return conj([o.present, equals(interp, o.value, other)])
     if isinstance(a, bool) and isinstance(b, bool):
         return a == b
     if (is_z3(a) and z3.is_bool(a)) or (is_z3(b) and z3.is_bool(b)):
